@@ -146,6 +146,7 @@ type previewer struct {
 	spinner    string
 	bar        []bool
 	xw         [2]int
+	pending    bool
 }
 
 type previewed struct {
@@ -986,7 +987,7 @@ func NewTerminal(opts *Options, eventBox *util.EventBox, executor *util.Executor
 		initialPreviewOpts: opts.Preview,
 		previewOpts:        opts.Preview,
 		activePreviewOpts:  &opts.Preview,
-		previewer:          previewer{0, []string{}, 0, false, true, disabledState, "", []bool{}, [2]int{0, 0}},
+		previewer:          previewer{0, []string{}, 0, false, true, disabledState, "", []bool{}, [2]int{0, 0}, false},
 		previewed:          previewed{0, 0, 0, false, false, false, false},
 		previewBox:         previewBox,
 		eventBox:           eventBox,
@@ -4825,6 +4826,12 @@ func (t *Terminal) Loop() error {
 						}
 						t.previewer.lines = result.lines
 						t.previewer.spinner = result.spinner
+						if t.previewer.pending {
+							// The lines of the previous command may have been redrawn under this version
+							// while the "Loading .." message was up
+							t.previewer.pending = false
+							t.previewed.version = 0
+						}
 						if t.hasPreviewWindow() && t.previewer.following.Enabled() {
 							t.previewer.offset = util.Max(t.previewer.offset, len(t.previewer.lines)-(t.pwindow.Height()-t.activePreviewOpts.headerLines))
 						} else if result.offset >= 0 {
@@ -4835,6 +4842,7 @@ func (t *Terminal) Loop() error {
 						t.printPreview()
 					case reqPreviewDelayed:
 						t.previewer.version = value.(int64)
+						t.previewer.pending = true
 						t.printPreviewDelayed()
 					case reqPrintQuery:
 						exit(func() int {
